@@ -148,7 +148,7 @@ func (r *recorder) Unsubscribe(_ *zap.Logger, name string, _ bool) error {
 	return nil
 }
 func (r *recorder) Peers(name string) ([]peer.ID, error) { r.add("peers", name, nil); return nil, nil }
-func (r *recorder) Topics() []string                    { return nil }
+func (r *recorder) Topics() []string                     { return nil }
 func (r *recorder) Broadcast(name string, data []byte, _ time.Duration) error {
 	r.add("pub", name, append([]byte{}, data...))
 	return nil
@@ -168,7 +168,7 @@ func (r *recorder) take(kind string) (bases []string, calls []call) {
 // a signer that returns a chosen 256-byte string (RSA itself is not the subject here)
 type fixedSigner struct{ sig []byte }
 
-func (s *fixedSigner) Sign([]byte) ([]byte, error)   { return s.sig, nil }
+func (s *fixedSigner) Sign([]byte) ([]byte, error)    { return s.sig, nil }
 func (s *fixedSigner) Public() keys.OperatorPublicKey { return nil }
 
 // metrics reporter that tells where validation stopped
@@ -179,8 +179,8 @@ type recMetrics struct {
 	reason      string
 }
 
-func (m *recMetrics) reset() { m.passedTopic, m.outcome, m.reason = false, "", "" }
-func (m *recMetrics) SSVMessageType(spectypes.MsgType) { m.passedTopic = true }
+func (m *recMetrics) reset()                                               { m.passedTopic, m.outcome, m.reason = false, "", "" }
+func (m *recMetrics) SSVMessageType(spectypes.MsgType)                     { m.passedTopic = true }
 func (m *recMetrics) MessageAccepted(spectypes.BeaconRole, specqbft.Round) { m.outcome = "accept" }
 func (m *recMetrics) MessageIgnored(reason string, _ spectypes.BeaconRole, _ specqbft.Round) {
 	m.outcome, m.reason = "ignore", reason
@@ -511,7 +511,9 @@ func (s *sut) fromStr(str string) {
 
 // ---- generators --------------------------------------------------------------------------------------
 
-func be5(v uint64) []byte { return []byte{byte(v >> 32), byte(v >> 24), byte(v >> 16), byte(v >> 8), byte(v)} }
+func be5(v uint64) []byte {
+	return []byte{byte(v >> 32), byte(v >> 24), byte(v >> 16), byte(v >> 8), byte(v)}
+}
 
 var edgePrefixes = []uint64{0, 1, 126, 127, 128, 129, 255, 256, 1<<32 - 1, 1 << 32, 1<<32 + 127, 1 << 39, 1<<39 + 128,
 	1<<40 - 129, 1<<40 - 128, 1<<40 - 1, 0x7fffffffff, 0x8000000000, 0x00ffffffff, 0xff00000000, 0x0123456789, 0xabcdefabcd}
